@@ -3,7 +3,7 @@ CONSTANTS
   Names = {"admin", "bob", "Bob"}
   DefaultUser = "admin"
   Templates <- TemplatesSmall
-  GrantPerms = {"logon", "px"}
+  GrantPerms = {"px"}
   Policy = "empty"
   FileNilify = TRUE
   AbsBoot = "empty"
